@@ -29,7 +29,7 @@ def EXHAUSTIVE(tier):
 
 
 def cases(tier):
-    return len(CONFIGS) // CHUNK + (400 if tier == "quick" else 20000)
+    return len(CONFIGS) // CHUNK + (3000 if tier == "quick" else 80000)
 
 
 def floors(tier):
